@@ -37,7 +37,7 @@ package hash
 //@ func (SHA256Hash).Empty
 //@   prop C08 C19
 //@   safety
-//@   modifies nothing
+//@   pure
 //@   loop 1 invariant forall k int :: 0 <= k && k < $i ==> h[k] == 0
 //@   ensures [all-zero] result <==> forall k int :: 0 <= k && k < 32 ==> h[k] == 0
 
